@@ -66,11 +66,28 @@ Theorem C13_arguments_coerce : forall s frags vdefs cv rt top k f,
 Proof. exact arguments_coerce. Qed.
 Print Assumptions C13_arguments_coerce.
 
+(* ... hence, with ARBITRARY data, no error of a well-typed operation has the cause "argument
+   coercion failed": every error carries one of the data causes of Spec.cause. *)
+Theorem C13_errors_attributable : forall fuel s d vars root cv j es cs,
+  schema_ok s = true ->
+  coerce_variable_values s (d_vars d) vars = Some cv ->
+  well_typed_at s d cv = true ->
+  execute_fuel fuel s d vars root = Resp j es cs ->
+  Forall (fun e : err => snd e <> CauseArgs) es.
+Proof. exact errors_attributable. Qed.
+Print Assumptions C13_errors_attributable.
+
 (* the boolean checker run by the harness decides (soundly) the declarative judgment *)
 Theorem C13_checker_sound : forall s frags vdefs nulls fuel rt sels,
   check_set s frags vdefs nulls fuel rt sels = true -> set_typed s frags vdefs nulls rt sels.
 Proof. exact check_set_sound. Qed.
 Print Assumptions C13_checker_sound.
+
+(* the extracted shape predicate the harness evaluates on /repo's responses implies [shaped] *)
+Theorem C13_shape_checker_sound : forall s frags cv fuel t sels j,
+  shape_ok s frags cv fuel t sels j = true -> shaped s frags cv t sels j.
+Proof. intros s frags cv fuel. exact (proj1 (shape_ok_sound s frags cv fuel)). Qed.
+Print Assumptions C13_shape_checker_sound.
 
 (* accepted variable values are what the theorem needs of them *)
 Theorem C13_variables : forall s vdefs given cv,
@@ -109,5 +126,5 @@ Example C13_exception_is_exact :
   coerce_variable_values ex_schema (d_vars ex_doc) [(ex_v, VNull)] = Some [(ex_v, VNull)] /\
   well_typed_at ex_schema ex_doc [(ex_v, VNull)] = false /\
   conforms_root ex_schema ex_q ex_root = true /\
-  execute ex_schema ex_doc [(ex_v, VNull)] ex_root = Resp (JObj [(ex_f, JNull)]) [[PKey ex_f]] [].
+  execute ex_schema ex_doc [(ex_v, VNull)] ex_root = Resp (JObj [(ex_f, JNull)]) [([PKey ex_f], CauseArgs)] [].
 Proof. vm_compute. repeat split. Qed.
